@@ -35,13 +35,28 @@ def find_body(F):
 
 def r1(F, R):
     b = find_body(F)
+    # on find's deep path table (the collection's own private helpers inlined, e.g. `steps_of(ty)`): per step type, which of the
+    # collection's maps is consulted
+    from . import deep as D
+    info = F.adt(COL)
+    fnames = [f["name"] for f in info["variants"][0]["fields"]]
+    own = lambda cb: (cb.impl or {}).get("self_adt") == COL and not (cb.impl or {}).get("trait")
+    dp = D.Deep(F, b, max_paths=6000, inline_only=own)
     table = {}
-    for p in A.enumerate_paths(b):
-        var = [o for a, o in p.decisions if "gherkin::StepType" in a]
-        refs = [st for s, k, st in p.effects if k == "assign" and st["rv"]["k"] == "ref" and place_fields(st["rv"]["pl"]) and place_fields(st["rv"]["pl"])[-1][0] == COL]
-        flds = {place_fields(st["rv"]["pl"])[-1][1] for st in refs}
-        if var:
-            table.setdefault(var[0], set()).update(flds)
+    selfs = (("arg", 1), ("deref", ("arg", 1)))
+    for p in dp.run():
+        var = [o for a, o in p.conds if a[0] == "discr" and dp.adt_of.get(a, "") == "gherkin::StepType"]
+        if not var:
+            continue
+        flds = set()
+        for e in p.effects:
+            terms = list(e[2]) if e[0] == "call" else [e[1], e[2]] if e[0] == "write" else []
+            for t in terms:
+                for x in D.subterms(t) if isinstance(t, tuple) else ():
+                    if x[0] == "field" and isinstance(x[2], int) and x[2] < len(fnames) and (x[1] in selfs or x[1] == ("L", 0, 1) or x[1] == ("deref", ("L", 0, 1))):
+                        flds.add(fnames[x[2]])
+        for v in var[0].split("|"):
+            table.setdefault(v, set()).update(flds)
     want = {"Given": {"given"}, "When": {"when"}, "Then": {"then"}}
     R.check(table == want, "find-selects-map-by-keyword", b, f"{ {k: sorted(v) for k, v in table.items()} }",
             f"Collection::find consults { {k: sorted(v) for k, v in table.items()} }; expected Given->given, When->when, Then->then")
